@@ -144,6 +144,12 @@ class Inject(Exception):
     pass
 
 
+def attempt_now():
+    """the attempt number of the delayed send in whose task the caller runs (None outside one)"""
+    cur = CUR.get()
+    return cur[2] if cur else None
+
+
 class Runaway(BaseException):
     """the loop polls far more often than once per minute (it would never reach the end of the run in virtual time)"""
 
@@ -274,9 +280,12 @@ class Scripted(Common, ScheduleSource):
         return snap
 
     def post_send(self, task):
-        St.log.append(("post", now_us(), self.idx, sid_of(task)))
+        sid = sid_of(task)
+        gone = []
         if self.removing and task.cron is None and task.time is not None:   # like the label source: one-shots only
+            gone = [x[0] for x in self.items if x[1].schedule_id == task.schedule_id]
             self.items = [x for x in self.items if x[1].schedule_id != task.schedule_id]
+        St.log.append(("post", now_us(), self.idx, sid, attempt_now(), gone))
 
 
 class Lab(Common, LabelScheduleSource):
@@ -332,9 +341,25 @@ class Lab(Common, LabelScheduleSource):
         St.log.append(("listed", now_us(), self.idx, k, [sid_of(s) for s in got]))
         return got
 
+    def lists(self):
+        return {name: list(t.labels.get("schedule", [])) for name, t in self.tasks.items()}
+
     def post_send(self, task):
-        St.log.append(("post", now_us(), self.idx, sid_of(task)))
-        return LabelScheduleSource.post_send(self, task)
+        """the real post_send; observed: WHICH trigger dicts it took out of the schedule lists (by object identity), named by
+        the entry they were built for - the sent entry itself, or another one"""
+        sid = sid_of(task)
+        rec = ["post", now_us(), self.idx, sid, attempt_now(), []]
+        St.log.append(rec)
+        before = self.lists()
+        try:
+            return LabelScheduleSource.post_send(self, task)
+        finally:
+            after = self.lists()
+            own = self.dicts.get(sid)
+            for name, l in before.items():
+                for d in l:
+                    if sum(1 for x in l if x is d) > sum(1 for x in after.get(name, []) if x is d):
+                        rec[5].append(sid if d is own else d.get("_uid", -1))
 
 
 def run_case(case, opts):
@@ -421,7 +446,7 @@ def assemble(case, log, dead):
         elif kind == "kick":
             kicks.append(ev)
         elif kind == "post":
-            posts.append([ev[1], ev[2], ev[3]])
+            posts.append([ev[1], ev[2], ev[3], ev[4], sorted(set(ev[5]))])     # instant, source, entry, attempt, triggers removed
         elif kind == "sleep":
             polls.append(close(case, cur, ev, anomalies))
             cur = fresh()
